@@ -478,14 +478,14 @@ def hist_valid(hist) -> bool:
 
 def in_scope(case) -> bool:
     """Requests inside the property's quantifier: a valid design space; points of the right size whose
-    physical image lies within the bounds; integer components on-grid unless rounding is requested in
+    physical image (after rounding) lies within the bounds; integer components on-grid unless rounding is requested in
     normalized mode (the only configuration where the property fixes their physical point); the
     current-value entry point only with the current value."""
     if not hist_valid(case_hist(case)):
         return False
     lb, ub, ints, mask, sh = space_info(case)
     norm, _, _, rnd, _ = case_cfg(case)
-    raw, _, _ = make_phys(case)
+    raw, phys, _ = make_phys(case)
     for fn in case["fns"].values():
         if any(len(a) != len(lb) or len(q) != len(lb) for _, a, q in fn["rows"]):
             return False
@@ -493,10 +493,10 @@ def in_scope(case) -> bool:
         if len(x) != len(lb):
             return False
         xs = [Fraction(t) for t in x]
-        for t, l, u, it in zip(raw(xs), lb, ub, ints):
+        for t, p, l, u, it in zip(raw(xs), phys(xs), lb, ub, ints):
             if it and t.denominator != 1 and not (norm and rnd):
                 return False
-            if (l is not None and t < l) or (u is not None and t > u):
+            if (l is not None and p < l) or (u is not None and p > u):
                 return False
         if r and r[0] == "ef-cur":
             if not sh.has_value() or caller_coords(sh.flat("value"), lb, ub, mask, norm) != xs:
@@ -689,7 +689,7 @@ def run(ctx) -> Result:
         "approximated derivatives are outside this check (C16)",
     ]
     rng = ctx.rng
-    n = 8000 if ctx.thorough else 1600
+    n = 8000 if ctx.thorough else 2400
     cases = load_corpus() + [gen_case(rng) for _ in range(n)]
     models = batch_model(cases)
     for c, m in zip(cases, models):
